@@ -34,6 +34,7 @@ EXTENDS Integers, Sequences, FiniteSets, TLC, MuxStore
 
 CONSTANTS Keys,      \* key ids 1..n
           NWs,       \* worker counts to choose from
+          Lrus,      \* facades to choose from: TRUE = LRU (a superset of the map's behaviours)
           MaxOps,    \* total number of submissions
           FreeFail,  \* TRUE: every callback fails nondeterministically (exhaustive runs)
                      \* FALSE: callback n of operation a fails iff n \in a.f   (plans)
@@ -214,7 +215,7 @@ InitWith(n, l) ==
   /\ acck = [k \in Keys |-> <<>>]
   /\ last = [op |-> "init", nw |-> n, lru |-> l]
 
-Init == \E n \in NWs, l \in BOOLEAN : InitWith(n, l)
+Init == \E n \in NWs, l \in Lrus : InitWith(n, l)
 Next ==
   \/ \E o \in OpNames, k \in Keys, fi \in DOMAIN FPats, gi \in DOMAIN GPats :
         Submit([op |-> o, k |-> k, id |-> Len(ops) + 1, d |-> Len(ops) + 1, f |-> FPats[fi], g |-> GPats[gi]])
